@@ -148,6 +148,7 @@ private:
 		Thread* t = (Thread*)p;
 		t->run();
 		t->_threadFinished = true;
+		t->ended(); // last use of t: the object may delete itself here
 		return 0;
 	}
 #ifdef ASL_EXP_THREADING
@@ -201,6 +202,10 @@ public:
 	}
 	/** The thread procedure. Reimplement this function to create new threads */
 	virtual void run()
+	{}
+	/** Called in the thread after run() has returned and finished() has become true; a thread object
+	that owns itself can delete itself here (not in run(), after which the object is still used) */
+	virtual void ended()
 	{}
 	/** Starts a new thread by calling run() in parallel */
 	void start()
